@@ -149,6 +149,10 @@ def build_fault(spec, case, ncols):
         return pd.DataFrame(rows, columns=names) if names is not None else pd.DataFrame(rows)
     if c == "list2":
         return rows.tolist()
+    if c in ("nd1", "list1", "series") and spec.family == "stream" and rows.shape[0] == 1:
+        # a 1-D container is ONE observation for a streaming detector: its length is the number of columns
+        flat = rows[0]
+        return np.array(flat) if c == "nd1" else (flat.tolist() if c == "list1" else pd.Series(np.array(flat)))
     return rows
 
 
@@ -170,7 +174,7 @@ def run(spec, case, containers, fault_pos=None, ctx=None):
                 outcome = "accepted"
             except ValueError as e:
                 outcome = "ValueError"
-                if (name == "CUSUM" and "Standard deviation is 0" in str(e)) or (name == "PCACD" and "bandwidth" in str(e)):
+                if cat.is_domain_end(name, det, e):
                     outcome = "domain-end"  # the detector's own documented refusal of degenerate data, not input validation
             except Exception as e:  # noqa
                 outcome = "other:" + type(e).__name__ + ":" + str(e)[:80]
@@ -185,9 +189,7 @@ def run(spec, case, containers, fault_pos=None, ctx=None):
                     do_call(spec, det, obj, i == 0, base + i)
             except ValueError as e:
                 msg = str(e)
-                if name == "CUSUM" and "Standard deviation is 0" in msg:
-                    return trace, outcome if outcome else "truncated"
-                if name == "PCACD" and "bandwidth" in msg:
+                if cat.is_domain_end(name, det, e):
                     return trace, outcome if outcome else "truncated"
                 trace.append({"rejected": msg[:120]})
                 return trace, outcome
@@ -349,6 +351,8 @@ def strat_fault(names):
                     kinds = ["rows", "multi_uni", "multi_uni", "rename", "rename_default", "rows+rename", "rows+cols"]
                 kind = draw(st.sampled_from(kinds))
                 cont = "df" if "rename" in kind else draw(st.sampled_from(["nd2", "df", "list2"]))
+                if spec.family == "stream" and kind in ("cols+", "cols-", "multi_uni") and draw(st.integers(0, 2)) == 0:
+                    cont = draw(st.sampled_from(["nd1", "list1", "series"]))
                 fault = {"kind": kind, "container": cont, "pos": pos}
             out = {"det": name, "params": p, "ncols": ncols, "items": items, "containers": containers, "fault": fault, "seed_base": draw(vs.seed_base)}
             if spec.kind != "y":
@@ -416,6 +420,8 @@ def enum_grid(tier, shard, nshards):
         else:
             kinds = ["rows", "multi_uni", "rename", "rename_default", "rows+rename", "rows+cols"] if spec.univariate else ["rows", "cols+", "cols-", "rename", "rename_default", "rows+cols", "rows+rename"]
             faults = [{"kind": kd, "container": c} for kd in kinds for c in (["df"] if "rename" in kd else ["nd2", "df", "list2"])]
+            if spec.family == "stream":
+                faults += [{"kind": kd, "container": c} for kd in kinds if kd in ("cols+", "cols-", "multi_uni") for c in ("nd1", "list1", "series")]
             schemes = {"nd2": ["nd2"] * L, "df": ["df"] * L, "list2": ["list2"] * L}
             if ncols == 1 or spec.family == "stream":
                 schemes["1d"] = [["nd1", "series", "list1"][i % 3] for i in range(L)]
@@ -454,7 +460,7 @@ PROPERTY = {
         "For each of the 14 Streaming/Batch detectors: a short valid history (3-30 calls, batch detectors start with set_reference) whose "
         "items are presented in drawn containers (scalar / list / 1-D / 2-D ndarray / Series / DataFrame as far as the shape allows, in runs "
         "with switches; DataFrames / Series may carry non-default, descending or repeated row labels; a quarter of the histories hold integral values and may also be presented with integer dtypes / python ints) and ONE malformed call injected at a drawn position 0..len: wrong row count, wrong column count (+1/-1, as ndarray, "
-        "list or DataFrame), renamed DataFrame columns (other explicit names, or pandas' default labels vs. explicit names), wrong rows combined with another width / other names, multi-column data to a "
+        "list or DataFrame, and for streaming detectors as a 1-D array / list / Series of the wrong length), renamed DataFrame columns (other explicit names, or pandas' default labels vs. explicit names), wrong rows combined with another width / other names, multi-column data to a "
         "univariate detector, y with two observations. Oracles: (i) the malformed call raises ValueError (inputs that are legal because "
         "nothing is established yet must be accepted); (ii) the observations after every accepted call equal those of the run without the "
         "malformed call (rejected call seeded like the next accepted one); (iii) the run with the drawn containers equals the run with plain "
